@@ -44,6 +44,13 @@ def impl_map(cfg, code, t, rests, rng, res):
         if f0[0] == 0:
             ls, sp = f0[1]
             ups = [attempt(lambda r_=r_: sp.flatten_up_to(r_)) for r_ in rs]
+            # an independent decider of "rest has the structure of tree as a prefix"
+            if cfg[2] == 0:
+                for r_ in rs:
+                    pe = attempt(lambda r_=r_: optree.prefix_errors(tree, r_, **kw))
+                    if pe[0] == 0 and pe[1] and (r[0] == 0 or trace):
+                        res.fail('a rest that does not have the structure of tree as a prefix (prefix_errors) did not stop tree_map before calling f', case,
+                                 f'outcome={r[:1]} calls={len(trace)}')
             if all(u[0] == 0 for u in ups):
                 want = [tuple([l] + [u[1][i] for u in ups]) for i, l in enumerate(ls)]
                 if code < 100:
